@@ -150,6 +150,43 @@ t("C46","exploration",RM+"accept-implies-authentic oracle with per-pool counter 
   "Messages with single-field corruptions, unregistered pools and counter walks; accept implies every authentication fact, recomputed independently.",
   "KES verifier injected from the kes package")
 
+# families added after the seeding rounds (see DESIGN.md 7.4 / 7.8)
+ADD = {
+ "C01": "Receivers are also re-used across different corpus objects (stale identifier caches), and first Hash() calls race on fresh objects.",
+ "C02": "Every successfully decoded ledger value is additionally walked through its accessors (a value that cannot be read is a violation), and decodable-but-inconsistent blocks are generated.",
+ "C04": "A concurrent phase round-trips different instances of one message type from several goroutines and re-compares handed-out bytes afterwards.",
+ "C05": "Text prefixes that contain, start with or end with the right one are rejected cases too.",
+ "C07": "Tag head widths (258, 24, 259) are an encoding class; bodies, witness sets, outputs, metadata, datums, redeemers and scripts must be reported, not only be right if reported.",
+ "C08": "Quantities are also written with non-shortest bignum/integer heads, padded and chunked bignums, and byte-quiet policy ids.",
+ "C09": "Registration-table changes on a live full-duplex muxer (unregister one direction, re-register) are part of the run.",
+ "C10": "Messages and packed batches ending exactly on a multiple of the segment payload limit are sent last.",
+ "C12": "Histories over several Protocol instances: instances stopped with a transition in flight, then a fresh instance is judged from its first message.",
+ "C14": "Terminal states kept alive beyond the timeout must stay quiet.",
+ "C15": "Two-call histories per client object precede the connection's end.",
+ "C17": "Reachability is re-checked after client stop / restart and server restart on Done on full-duplex connections.",
+ "C21": "Other client calls (available range, current tip) precede Sync on the same client.",
+ "C23": "Everything handed to callbacks is retained without copying and re-compared after the batch and after the next request.",
+ "C24": "Several sessions on one server object, with InitFunc held until the first request is on the wire.",
+ "C25": "The same query kind is repeated within and across acquisitions; reply re-use is detected without the model.",
+ "C26": "Body / witness map key orders are a judged dimension (presentation independence).",
+ "C27": "Re-validation on the same objects, inputs-not-mutated snapshots and shared-state transaction sequences (history independence).",
+ "C28": "Replayed witnesses come from a transaction really accepted earlier in the process; witness-set presentations are a judged dimension.",
+ "C29": "Script receivers are re-used and copied by value; validity bounds are read from bodies in non-ascending key order.",
+ "C30": "Block-extracted transactions with all three auxiliary-data shapes in every era are judged with the same size oracle.",
+ "C31": "Cost models are edited in place between validations; key-order presentations are cycled.",
+ "C32": "Re-validation and inputs-not-mutated snapshots run on every case.",
+ "C33": "One certificate of every kind for the same or another credential rides in the withdrawing transaction.",
+ "C34": "Every tamper family runs under every combination of the validation options (options only add checks).",
+ "C38": "Genuine -> tampered -> genuine histories per entry point, tamper written in place into the genuine call's buffers and as a fresh copy.",
+ "C39": "Genuine -> tampered -> genuine histories per entry point, tamper written in place into the genuine call's buffers and as a fresh copy.",
+ "C40": "In-place tampering of the slices a genuine validation was given, on the same validator instance.",
+ "C43": "Failed Submits under back-pressure precede the drain with a block held in flight.",
+ "C46": "A field of the just-accepted message object is flipped in place, verified, restored and verified again.",
+}
+for _i, _x in ADD.items():
+    _c, _te, _tx, _n = T[_i]
+    T[_i] = (_c, _te, _tx + " " + _x, _n)
+
 READY = set(open(os.path.join(V, "tools", "ready.txt")).read().split())
 
 def main():
